@@ -187,6 +187,10 @@ def cases_poses(seed, tier):
             out.append({"rel": "midpoint", "a": a, "b": b})
             for d in STEP_SIZES:
                 out.append({"rel": "lingap", "a": a, "b": b, "delta": d})
+    # the deprecated entry points on four pose triples
+    for name in sorted(ALIASES):
+        for i, j, k in ((0, 1, 2), (3, 5, 7), (8, 2, 4), (6, 9, 1)):
+            out.append({"rel": "alias", "name": name, "a": P[i % n], "b": P[j % n], "c": P[k % n]})
     # a frame OBJECT used, re-posed in place through one of the transform's writers, and used again
     for i in range(n):
         for j in range(n):
@@ -765,7 +769,49 @@ def rel_numjac(c, r):
     return True
 
 
-RELS = {"reposed": rel_reposed, "mirror": rel_mirror, "midpoint": rel_midpoint, "lookat": rel_lookat, "plane3": rel_plane3, "planeT": rel_planeT,
+# the deprecated entry points of the same helpers: each is documented as "use <modern name> instead" and must answer as that one
+ALIASES = {"Mirror": ("mirror", 2), "TMMidPointEx": ("tmAvgMidpoint", 2), "TMMidPoint": ("tmInterpMidpoint", 2), "lookat": ("lookAt", 2),
+           "Distance": ("distance", 2), "ArcDistance": ("arcDistance", 2), "Error": ("poseError", 2), "GeometricError": ("geometricError", 2),
+           "LocalToGlobal": ("localToGlobal", 2), "GlobalToLocal": ("globalToLocal", 2),
+           "CloseGap": ("closeLinearGap", "2d"), "ArcGap": ("closeArcGap", "2d"), "PlaneFrom3Tms": ("planeFromThreePoints", 3),
+           "PlaneTMSFromOne": ("planePointsFromTransform", 1), "TwistFromTransform": ("twistFromTransform", 1)}
+
+
+def _num(x):
+    """Any helper result as a flat float vector (transforms by their matrix, tuples/lists element-wise)."""
+    if hasattr(x, "TM") and isinstance(getattr(x, "TM"), np.ndarray):
+        return np.array(x.TM, float).reshape(-1)
+    if isinstance(x, (list, tuple)):
+        return np.concatenate([_num(y) for y in x]) if len(x) else np.zeros(0)
+    if hasattr(x, "data") and isinstance(getattr(x, "data"), np.ndarray):
+        return np.array(x.data, float).reshape(-1)
+    return np.array(x, float).reshape(-1)
+
+
+def rel_alias(c, r):
+    import contextlib
+    import io
+    fsr = lib()["fsr"]
+    modern, kind = ALIASES[c["name"]]
+    old_fn, new_fn = getattr(fsr, c["name"], None), getattr(fsr, modern, None)
+    if old_fn is None or new_fn is None:
+        return None                         # the entry point does not exist (any more): nothing to compare
+    poses = [c["a"], c["b"], c["c"]]
+
+    def args():
+        if kind == "2d":
+            return [mk(poses[0]), mk(poses[1]), 0.25]
+        return [mk(q) for q in poses[:kind]]
+    with contextlib.redirect_stdout(io.StringIO()), contextlib.redirect_stderr(io.StringIO()):   # (they print a deprecation notice)
+        got = call(old_fn, *args())
+    want = call(new_fn, *args())
+    g, w = _num(got), _num(want)
+    r.chk("deprecated_entry_point_differs", amax(g - w) if g.shape == w.shape else float("inf"), 1e-12,
+          {"entry_point": c["name"], "documented_replacement": modern})
+    return True
+
+
+RELS = {"alias": rel_alias, "reposed": rel_reposed, "mirror": rel_mirror, "midpoint": rel_midpoint, "lookat": rel_lookat, "plane3": rel_plane3, "planeT": rel_planeT,
         "metric": rel_metric, "arcdist": rel_arcdist, "lingap": rel_lingap, "arcgap": rel_arcgap, "ikpath": rel_ikpath,
         "twist": rel_twist, "twistT": rel_twistT, "unitvec": rel_unitvec, "sphere": rel_sphere, "angle": rel_angle,
         "chainjac": rel_chainjac, "numjac": rel_numjac}
